@@ -31,7 +31,8 @@ def tally(base_case, max_leaves=200000):
         for s in range(8):
             r2 = stub.execute(dict(base_case, rng=("none", s)))
             seen.add(str(stub.arrangement(r2)))
-        if len(seen) > 1:
+        from ..oracle import other_rng_used
+        if len(seen) > 1 or other_rng_used(lambda: stub.execute(dict(base_case, rng=("none", 0)))):
             return {"decided": False, "why": "outputs vary although no draw reached the random module (other RNG)", "leaves": n}
     return {"decided": True, "leaves": n, "weights_sum_to_one": total == 1,
             "outcomes": [{"arr": [list(a) for a in k], "num": v.numerator, "den": v.denominator} for k, v in sorted(out.items())]}
